@@ -188,6 +188,13 @@ def _one_command(st, m, form, s):
         l2 = S.new_lines()
         check(r2["status"] == "ok" and r2["result"][0] == "ok" and len(tagged_lines(l2, "t2")) == 1, f"C06/{tag}/session_unusable_afterwards", lines=l2)
         check(w.loop.time() - t0 - elapsed < WATCHDOG, f"C06/{tag}/followup_answered_only_by_watchdog")
+        if uses_mbox and mbn is not None and kind not in ("logout",):
+            # whatever the command did to that mailbox, a following STATUS on it is answered promptly too
+            t1 = w.loop.time()
+            r3 = w.issue(S, "t3 STATUS x (MESSAGES)", mailbox_name=mbn)
+            l3 = S.new_lines()
+            check(r3["status"] == "ok" and len(tagged_lines(l3, "t3")) == 1, f"C06/{tag}/mailbox_unusable_afterwards", mailbox=mbn, lines=l3)
+            check(w.loop.time() - t1 < WATCHDOG, f"C06/{tag}/mailbox_answers_only_by_watchdog_afterwards", mailbox=mbn, lines=l3)
     w.shutdown()
 
 
